@@ -36,12 +36,17 @@ import (
 // ---------------------------------------------------------------------------------------
 // the bound
 
-// budgetC is the constant of B(n) = budgetC·(n+16)² logical steps (lexer main-loop
-// iterations + parser current() calls) for one entry-point call on n bytes. The largest
-// ratio steps/(n+16)² observed over the complete corpus enumeration, the generated programs
-// and the nesting stressors is recorded in the evidence (max_ratio_quadratic); the constant
-// is more than 100 times that (see NOTES.md).
-const budgetC = 400
+// The bound: B(n) = budgetC·(n+16)·min(n+16, budgetKnee) logical steps (lexer main-loop
+// iterations + parser current() calls) for one entry-point call on n bytes: quadratic
+// 40·(n+16)² for tiny inputs (where the constant part of a parse dominates) and linear
+// 2000·(n+16) from 34 bytes on. The largest ratios observed over the complete corpus
+// enumeration, the generated programs, the enumerated short strings and the nesting
+// stressors are recorded in the evidence (max_ratio_quadratic, max_ratio_linear…); the
+// constants are more than 100 times those (see NOTES.md).
+const (
+	budgetC    = 40
+	budgetKnee = 50
+)
 
 var budgetCur = func() float64 {
 	// development aid only (measuring the margin): C01_BUDGET_C overrides the constant
@@ -53,11 +58,15 @@ var budgetCur = func() float64 {
 
 func budget(n int) int64 {
 	m := float64(n + 16)
-	return int64(budgetCur * m * m)
+	k := m
+	if k > budgetKnee {
+		k = budgetKnee
+	}
+	return int64(budgetCur * m * k)
 }
 
 const (
-	cpuNetSeconds = 20      // CPU seconds (rusage) one case may use: net for loops that bypass both counters
+	cpuNetSeconds = 5      // CPU seconds (rusage) one case may use: net for loops that bypass both counters
 	heapNetBytes  = 2 << 30 // live heap one case may reach (an input is at most 64 KiB)
 	maxInput      = 64 << 10
 )
@@ -96,12 +105,16 @@ type wsummary struct {
 	MaxLinID  string           `json:"max_lin_id"`
 	MaxLinBig float64          `json:"max_lin_big"` // same, inputs of at least 256 bytes
 	BigID     string           `json:"max_lin_big_id"`
+	MaxCPUms  float64          `json:"max_cpu_ms"` // largest CPU time (rusage) of one case
+	MaxCPUID  string           `json:"max_cpu_id"`
 	ErrFrom   map[string]int   `json:"err_from"` // how diagnostics carried their position
 	Fam       map[string][]int `json:"fam"`      // family -> [cases, rejected-by-a-parser, accepted-by-both]
+	WholeRej  []string         `json:"whole_rej"` // unmodified corpus / generated texts that a parser entry point did not accept
 }
 
 type stepAbort struct {
 	site  string
+	chain string // the callers of the site, innermost first (diagnosis only, not part of the key)
 	steps int64
 }
 
@@ -181,6 +194,22 @@ func loopSite(names, files []string) string {
 	return "unknown"
 }
 
+// loopChain lists the innermost repository frames common to all samples, innermost first.
+func loopChain(names []string) string {
+	var out []string
+	for i := len(names) - 1; i >= 0 && len(out) < 5; i-- {
+		if !repoFrame(names[i]) || strings.HasSuffix(names[i], ".(*Parser).current") {
+			continue
+		}
+		n := names[i]
+		if j := strings.LastIndex(n, "/"); j >= 0 {
+			n = n[j+1:]
+		}
+		out = append(out, n)
+	}
+	return strings.Join(out, " < ")
+}
+
 func lcp(a, b []string) int {
 	n := 0
 	for n < len(a) && n < len(b) && a[n] == b[n] {
@@ -212,7 +241,7 @@ func installBudget(b int64) {
 		samples++
 		if samples >= abortSamples {
 			total := verifhook.Steps(verifhook.StepLexer) + verifhook.Steps(verifhook.StepParser)
-			panic(stepAbort{site: loopSite(names, files), steps: total})
+			panic(stepAbort{site: loopSite(names, files), chain: loopChain(names), steps: total})
 		}
 	})
 }
@@ -313,7 +342,7 @@ func runEntry(entry string, text []byte, dir string) (res eres, accepted bool, h
 		}
 		if sa, ok := r.(stepAbort); ok {
 			res.Out, res.Site, res.Steps = "steps", sa.site, sa.steps
-			res.Msg = fmt.Sprintf("more than B(n)=%d steps for n=%d bytes", budget(len(text)), len(text))
+			res.Msg = fmt.Sprintf("more than B(n)=%d steps for n=%d bytes; frames common to all samples: %s", budget(len(text)), len(text), sa.chain)
 			return
 		}
 		res.Out = "panic"
@@ -557,6 +586,9 @@ func workerMain(args []string) {
 		o := runCase(c, text, dir)
 		curCase.Store("")
 		fmt.Fprintf(logf, "END %d\n", i)
+		if ms := float64(procCPU()-caseCPU0.Load()) / 1e6; ms > sum.MaxCPUms {
+			sum.MaxCPUms, sum.MaxCPUID = ms, c.ID
+		}
 
 		sum.Cases++
 		f := sum.Fam[c.Fam]
@@ -571,6 +603,8 @@ func workerMain(args []string) {
 		}
 		if o.outcomes[2] == "ok" && o.outcomes[3] == "ok" {
 			f[2]++
+		} else if c.Op == "whole" {
+			sum.WholeRej = append(sum.WholeRej, c.ID+"="+o.outcomes[2]+"/"+o.outcomes[3])
 		}
 		sum.Fam[c.Fam] = f
 		for _, h := range o.hows {
@@ -665,4 +699,53 @@ func boundsMain(args []string) {
 		fmt.Fprintf(logf, "END %d\n", i)
 	}
 	fmt.Fprintf(logf, "DONE\n")
+}
+
+// oneMain runs the four entry points on the bytes of one file (replay aid).
+func oneMain(args []string) {
+	if len(args) < 1 {
+		os.Exit(2)
+	}
+	text, err := os.ReadFile(args[0])
+	if err != nil {
+		fmt.Fprintln(os.Stderr, err)
+		os.Exit(2)
+	}
+	dir, _ := os.MkdirTemp("", "c01one")
+	defer os.RemoveAll(dir)
+	data.CompileMode = true
+	data.WriteOutput = func(string) {}
+	netOut, netLogger = os.Stdout, os.Stderr
+	go watchdog()
+	caseCPU0.Store(procCPU())
+	curCase.Store(args[0])
+	tt := templateText(text)
+	for _, en := range entryNames {
+		in := text
+		if en == "lext" || en == "parsef" {
+			in = tt
+		}
+		r, acc, how := runEntry(en, in, dir)
+		fmt.Printf("%-6s out=%-9s steps=%-8d accepted=%v %s %s %s %s\n", en, r.Out, r.Steps, acc, how, r.Site, r.Kind, r.Msg)
+		if len(args) > 1 && r.Out == "panic" {
+			// second argument: print the stack of the panic
+			func() {
+				defer func() {
+					if recover() != nil {
+						fmt.Println(string(debug.Stack()))
+					}
+				}()
+				installBudget(1 << 40)
+				switch en {
+				case "lex":
+					lexer.NewLexer().Tokenize(string(in))
+				case "lext":
+					lexer.NewLexer().TokenizeTemplate(string(in))
+				default:
+					_, p := newVM()
+					p.ParseString(string(in), "x.zy")
+				}
+			}()
+		}
+	}
 }
